@@ -252,17 +252,20 @@ def judge_variants(rec: Recorder, base: str, variants: list[str], proxy: str | N
         pm.clear()
 
 
-def judge_manager_sequence(rec: Recorder, urls: list[str], proxy: str | None, shared_headers: bool) -> None:
+def judge_manager_sequence(rec: Recorder, urls: list[str], proxy: str | None, shared_headers: bool, container: str = "dict") -> None:
     """Several URLs through ONE manager (optionally with one caller-owned header dict reused for every call): every
     request must still name its own URL's host, and neither the manager's defaults nor the caller's dict may change."""
     import urllib3
 
-    case = {"urls": urls, "proxy": proxy, "shared_headers": shared_headers}
-    caller = {"X-Caller": "c"}
+    from urllib3._collections import HTTPHeaderDict
+
+    case = {"urls": urls, "proxy": proxy, "shared_headers": shared_headers, "container": container}
+    mk = (lambda d: HTTPHeaderDict(d)) if container == "hd" else (lambda d: dict(d))
+    caller = mk({"X-Caller": "c"})
     with netsim.Net(Srv(), fake_tls="inner") as net, warnings.catch_warnings():
         warnings.simplefilter("ignore")
-        pm = urllib3.ProxyManager(proxy, cert_reqs="CERT_NONE", headers={"X-Default": "d"}) if proxy else urllib3.PoolManager(cert_reqs="CERT_NONE", headers={"X-Default": "d"})
-        defaults_before = dict(pm.headers)
+        pm = urllib3.ProxyManager(proxy, cert_reqs="CERT_NONE", headers=mk({"X-Default": "d"})) if proxy else urllib3.PoolManager(cert_reqs="CERT_NONE", headers=mk({"X-Default": "d"}))
+        defaults_before = dict(pm.headers.items())
         seen = []
         for u in urls:
             mark = sum(len(st.server.requests) for st in net.states)
@@ -287,11 +290,11 @@ def judge_manager_sequence(rec: Recorder, urls: list[str], proxy: str | None, sh
             if hv not in ok:
                 rec.fail(case, "host-header-of-another-request", {"url": u, "got": hv, "want": sorted(ok), "route": "proxy" if proxy else "direct", "shared_headers": shared_headers}, f"request for {u!r} carried Host: {hv!r}")
                 return
-        if dict(pm.headers) != defaults_before:
-            rec.fail(case, "manager-default-headers-changed", {"after": dict(pm.headers)}, f"the manager's default headers changed to {dict(pm.headers)!r}")
+        if dict(pm.headers.items()) != defaults_before:
+            rec.fail(case, "manager-default-headers-changed", {"after": dict(pm.headers.items())}, f"the manager's default headers changed to {dict(pm.headers.items())!r}")
             return
-        if caller != {"X-Caller": "c"}:
-            rec.fail(case, "caller-headers-mutated", {"after": caller}, f"the caller's header dict was changed to {caller!r}")
+        if dict(caller.items()) != {"X-Caller": "c"}:
+            rec.fail(case, "caller-headers-mutated", {"after": dict(caller.items())}, f"the caller's header object was changed to {dict(caller.items())!r}")
         pm.clear()
 
 
@@ -382,8 +385,24 @@ def build_url(scheme: str, ui: str, host: str, port: str, path: str, q: str, fra
     return f"{scheme}://{ui}{host}{port}{path}{q}{frag}"
 
 
+def prime_other_schemes(rec: Recorder) -> None:
+    """Every host spelling used below is first parsed under schemes whose hosts are not normalised (a proxy URL, a
+    websocket or ftp URL seen earlier in the process): what an http(s) URL puts on the wire must not depend on that."""
+    from urllib3.util import parse_url
+
+    for h in HOSTS:
+        for sc in ("ws", "ftp", "socks5h"):
+            for port in ("", ":8080"):
+                try:
+                    parse_url(f"{sc}://{h}{port}/x")
+                except Exception:  # noqa: BLE001
+                    pass
+                rec.mon("primed_other_scheme")
+
+
 def run_shard(ctx: Ctx, rec: Recorder) -> None:
     rng = ctx.rng
+    prime_other_schemes(rec)
     idx = 0
     # (i) systematic: every host form x port form x scheme, plain path; direct and via proxy
     for scheme in ("http", "https"):
@@ -436,8 +455,9 @@ def run_shard(ctx: Ctx, rec: Recorder) -> None:
             for shared in (False, True):
                 si += 1
                 if ctx.mine(si):
-                    rec.case(["mgr-seq", seq, proxy, shared])
-                    judge_manager_sequence(rec, seq, proxy, shared)
+                    for container in ("dict", "hd"):
+                        rec.case(["mgr-seq", seq, proxy, shared, container])
+                        judge_manager_sequence(rec, seq, proxy, shared, container)
     # (iii-c) redirects followed by the manager: the follow-up is a request for the new URL
     firsts = ["http://alpha.test/hop", "http://alpha.test:8080/hop?x=1", "https://alpha.test/hop", "http://[::1]:81/hop", "http://ALPHA.test./hop"]
     seconds = ["http://beta.test/final", "https://beta.test/final?y=2", "http://beta.test:9090/final", "https://beta.test:8443/final", "http://alpha.test:9090/final", "https://alpha.test/final", "http://[2001:db8::1:0]/final", "https://[::1]:8443/final", "http://BETA.test/final#frag", "http://alpha.test/final"]
@@ -471,6 +491,6 @@ def replay(case: dict[str, typing.Any], ctx: Ctx, rec: Recorder) -> None:
     elif "redirect" in case:
         judge_redirect(rec, case["redirect"][0], case["redirect"][1], case.get("proxy"), case.get("headers", "none"))
     elif "urls" in case:
-        judge_manager_sequence(rec, case["urls"], case.get("proxy"), case.get("shared_headers", False))
+        judge_manager_sequence(rec, case["urls"], case.get("proxy"), case.get("shared_headers", False), case.get("container", "dict"))
     else:
         judge_variants(rec, case["base"], case["variants"], case.get("proxy"))
